@@ -130,7 +130,7 @@ var universeNicks = buildUniverse()
 func buildUniverse() []string {
 	seen := map[string]bool{}
 	var res []string
-	for _, base := range []string{"a", "b", "c", "me2", "me", "mx", "Me", "_", "m", "mex"} {
+	for _, base := range []string{"a", "b", "c", "me2", "me", "mx", "Me", "_", "m", "mex", "A"} {
 		n := base
 		for i := 0; i < 14; i++ {
 			if !seen[n] {
